@@ -323,6 +323,64 @@ func VerifC17_UnpackArchive() {
 	rt.Reach("unpackarchive-end")
 }
 
+// ---- archive unpacking with something at the destination already: whatever
+// is there (a regular file blocking the directory, or the directory of an
+// earlier unpack) is not renamed over and not removed by an unpack that did
+// not put it there ----
+
+func VerifC17_UnpackDestinationTaken() {
+	storage := rt.Root("/s/updates")
+	reg := c17Registry(storage)
+	res := &Resource{registry: reg, Identifier: "a/b.zip"}
+	rv := &ResourceVersion{resource: res, VersionNumber: "1.0.0", Available: true}
+	res.Versions = []*ResourceVersion{rv}
+	res.SelectedVersion = rv
+	rt.ZipEntryDamaged("x", 0)
+	rt.ZipMaterialize(storage + "/a/b_v1-0-0.zip")
+	rt.FsFaults(1)
+	dest := storage + "/a/b_v1-0-0"
+	// the destination is free, or taken by a regular file (under the engine:
+	// by something that the first look reports as a file or as a directory)
+	taken := rt.Bool("destination-taken")
+	if !rt.Symbolic() && taken {
+		_ = os.WriteFile(dest, []byte("previous content"), 0o600)
+	}
+	err := res.UnpackArchive()
+	if !rt.Symbolic() {
+		if taken {
+			data, rerr := os.ReadFile(dest)
+			rt.Assert(rerr == nil && string(data) == "previous content", "unpacktaken/what-was-there-is-kept")
+			rt.Assert(err != nil, "unpacktaken/blocked-destination-is-reported")
+		}
+		rt.Reach("unpacktaken-end")
+		return
+	}
+	// under the engine the outcome of the first look at the destination is a
+	// fork; the paths on which it agrees with the chosen situation are judged
+	seen, existed := false, false
+	for i := 0; i < rt.FsLen() && !seen; i++ {
+		if rt.FsOp(i) == "stat" && rt.FsPath(i) == dest {
+			seen, existed = true, rt.FsOK(i)
+		}
+	}
+	if !seen || existed != taken {
+		return
+	}
+	rt.Reach("unpacktaken-end")
+	if !existed {
+		return
+	}
+	for i := 0; i < rt.FsLen(); i++ {
+		op, p, p2 := rt.FsOp(i), rt.FsPath(i), rt.FsPath2(i)
+		if op == "rename" && p2 == dest {
+			rt.Assert(false, "unpacktaken/what-was-there-is-kept")
+		}
+		if (op == "removeall" || op == "remove") && p == dest {
+			rt.Assert(false, "unpacktaken/what-was-there-is-kept")
+		}
+	}
+}
+
 // ---- the publication automaton (as in the other C17 packages), with the
 // option of a chmod of the published file ----
 
